@@ -113,6 +113,8 @@ def gen_case(r):
                 if r.random() < 0.15: d = d + bytes(12)                         # 16-byte (IPv6-sized) entry with the v4 prefix
             else:
                 d = gen_ip(r)
+            if r.random() < 0.3:       # iPAddress entries that are not IPv4-sized (IPv6 = 16 bytes, and odd sizes): unusable but still "supported SAN present"
+                d = r.choice([bytes(16), bytes([0x20, 0x01, 0x0d, 0xb8]) + bytes(11) + b"\x01", d[:3], d + b"\x00", d + bytes(12), bytes(17)])
         elif t == GN_EMAIL:
             if kind == "email" and r.random() < 0.7:
                 d = r.choice([e, flipcase(r, e), e.split(b"@")[0] + b"@" + flipcase(r, e.split(b"@")[1]), e + b"\x00", e[:-1], b"x" + e])
@@ -122,8 +124,8 @@ def gen_case(r):
             d = mutate_name(r, e) if e and r.random() < 0.8 else gen_host(r)
         if not d: d = b"a"
         san.append((t, d))
-    cnk = r.randrange(6)
-    cn = None if cnk == 0 else (mutate_name(r, e) if e and cnk < 5 else gen_host(r))
+    cnk = r.randrange(8)
+    cn = None if cnk == 0 else (e if e and cnk >= 6 else (mutate_name(r, e) if e and cnk < 5 else gen_host(r)))
     if cn is not None and len(cn) == 0: cn = b"a"
     o = (1 if r.random() < 0.03 else 0, 1 if r.random() < 0.25 else 0, 1 if r.random() < 0.3 else 0,
          r.choice([NT_ANY, NT_ANY, NT_ANY, NT_HOST, NT_CN, NT_DNS, NT_EMAIL, NT_IP]))
@@ -150,6 +152,96 @@ def parse_line(l):
     o = (int(t[1]), int(t[2]), int(t[3]), int(t[4]))
     san = [] if t[7] == "-" else [(int(x.split(":")[0]), vlib.unhex(x.split(":")[1])) for x in t[7].split(",")]
     return o, san, (None if t[6] == "NULL" else vlib.unhex(t[6])), vlib.unhex(t[5])
+
+
+# ---------------------------------------------------------------- end-to-end certificates (DER -> parser -> validator)
+STRTYPES = {"utf8": 0x0C, "printable": 0x13, "ia5": 0x16, "t61": 0x14, "bmp": 0x1E, "universal": 0x1C, "visible": 0x1A, "numeric": 0x12}
+
+def e2e_cases(ck, r, n):
+    """Certificates assembled here (tools/der.py), signed with the testkeys RSA-2048 CA key (openssl CLI), parsed and validated by the
+    library unmodified.  Covers what the structure-level cases assume: every DirectoryString type for the CN, embedded NUL / control
+    bytes in CN and SAN strings, iPAddress of any size, SAN order, several CNs.  Returns (case lines, abstract descriptions)."""
+    import subprocess, der
+    R = vlib.REPO
+    ca_pem = open(os.path.join(R, "testkeys/RSA/2048_RSA_CA.pem")).read()
+    ca_der = der.pem_blocks(ca_pem)[0][1]
+    top = der.parse(ca_der)[0]                    # Certificate -> tbs -> [version, serial, alg, issuer, validity, subject, ...]
+    tbs = top.children[0]
+    kids = tbs.children
+    subj = kids[5] if kids[0].tag == 0xA0 else kids[4]
+    issuer = subj.encode()
+    key = os.path.join(R, "testkeys/RSA/2048_RSA_CA_KEY.pem")
+    lines, descs = [], []
+    def mk(e, cns, san, o):
+        attrs = [der.attr("c", "FI", 0x13), der.attr("o", "Verif")] + [der.attr("cn", v, STRTYPES[t]) for (t, v) in cns]
+        exts = []
+        if san:
+            exts.append(der.san_ext([der.general_name({GN_EMAIL: 1, GN_DNS: 2, GN_URI: 6, GN_IP: 7}[g], d) for g, d in san]))
+        c0 = der.cert(extensions=exts, subject=der.name(*attrs), issuer=issuer, serial=0x2000 + len(lines))
+        tb = der.parse(c0)[0].children[0].encode()
+        assert tb in c0
+        sig = subprocess.run(["openssl", "dgst", "-sha256", "-sign", key], input=tb, capture_output=True).stdout
+        if len(sig) != 256:
+            return
+        cert = der.seq(tb, der.ALG_SHA256RSA, der.bitstr(sig))
+        lines.append("ne %d %d %d %d %s %s" % (o[0], o[1], o[2], o[3], vlib.hexs(e), vlib.hexs(cert)))
+        descs.append((o, san, cns, e))
+    hosts = [b"victim.example", b"www.a.com", b"a.b.example.org"]
+    # directed: every string type x {exact, embedded NUL + suffix, trailing NUL, control byte}; SAN absent / unsupported-only / supported non-matching
+    for t in STRTYPES:
+        for e in hosts[:2]:
+            for cnv in (e, e + b"\x00.attacker.example", e + b"\x00", e[:3] + b"\x01" + e[3:], b"*." + e.split(b".", 1)[1]):
+                if t in ("bmp", "universal"):
+                    w = 2 if t == "bmp" else 4
+                    cnv = b"".join(bytes(w - 1) + bytes([c]) for c in cnv)
+                for san in ([], [(GN_URI, b"http://x/")], [(GN_DNS, b"other.example")], [(GN_IP, bytes(16))], [(GN_DNS, b"other.example"), (GN_IP, bytes([0x20, 1, 0xd, 0xb8]) + bytes(12))],
+                            [(GN_IP, bytes([0x20, 1, 0xd, 0xb8]) + bytes(12)), (GN_DNS, b"other.example")]):
+                    for o in ((0, 0, 0, NT_ANY),):
+                        mk(e, [(t, cnv)], san, o)
+    # SAN strings with embedded NUL / control bytes, two CNs (the last / the first matching), random mixes
+    for e in hosts:
+        for g in (GN_DNS, GN_EMAIL):
+            ee = e if g == GN_DNS else b"bob@" + e
+            for d in (ee, ee + b"\x00.attacker.example", ee + b"\x00", b"\x00" + ee):
+                mk(ee, [("utf8", b"unrelated.example")], [(g, d)], (0, 0, 0, NT_ANY))
+        mk(e, [("utf8", b"unrelated.example"), ("utf8", e)], [], (0, 0, 0, NT_ANY))
+        mk(e, [("utf8", e), ("utf8", b"unrelated.example")], [], (0, 0, 0, NT_ANY))
+    while len(lines) < n:
+        o, san, cn, e = gen_case(r)
+        if not e or o[0]:
+            continue
+        san = [(g, d) for g, d in san if g in (GN_EMAIL, GN_DNS, GN_URI, GN_IP)]
+        t = r.choice(list(STRTYPES)[:5])
+        cns = [] if cn is None else [(t, cn if t not in ("bmp",) else b"".join(b"\x00" + bytes([c]) for c in cn))]
+        mk(e, cns, san, o)
+    return lines, descs
+
+def e2e_expect(o, san, cns, e):
+    """what the property allows for an end-to-end certificate: None = either verdict acceptable (outside the clean domain / string
+    type whose conversion is the parser's business), True/False = required verdict when the certificate parses"""
+    def plain(t, v):
+        if t == "bmp":
+            return bytes(v[1::2]) if all(b == 0 for b in v[0::2]) else None
+        if t == "universal":
+            return bytes(v[3::4]) if len(v) % 4 == 0 and all(v[i] == 0 for i in range(len(v)) if i % 4 != 3) else None
+        return v
+    vals = [plain(t, v) for t, v in cns]
+    if any(v is None for v in vals):
+        return None
+    # a name string with an embedded NUL (or the certificate carrying one) never matches: accept is forbidden unless a CLEAN entry matches
+    # documented interoperability rule of parseGeneralNames (DISABLE_X509_GENERAL_NAME_SUPPORT_C_NULL not set): ONE terminating zero byte
+    # of a dNSName / rfc822Name / URI (sizeof instead of strlen at the issuer) is dropped; it is not an embedded NUL - nothing follows it
+    san = [(g, d[:-1]) if (g in (GN_DNS, GN_EMAIL, GN_URI) and len(d) > 1 and d[-1] == 0 and 0 not in d[:-1]) else (g, d) for g, d in san]
+    clean_san = [(g, d) for g, d in san if not (g in (GN_DNS, GN_EMAIL) and 0 in d)]
+    clean_cns = [v for v in vals if 0 not in v]
+    if len(clean_cns) > 1:
+        # several CNs: the library uses one of them; require only: accept => some clean CN or SAN entry matches
+        anym = spec_match(o, clean_san, None, e) or any(spec_match(o, clean_san, v, e) for v in clean_cns)
+        return None if anym else False
+    want = spec_match(o, clean_san, clean_cns[0] if clean_cns else None, e)
+    if (len(clean_san) != len(san)) or (len(clean_cns) != len(vals)):
+        return False if not want else None        # a NUL-carrying certificate may also be refused altogether
+    return want
 
 
 def corpus_cases():
@@ -235,6 +327,39 @@ def run(ck):
                                   "accepts" if got == "m=1" else "rejects", "does not carry" if got == "m=1" else "carries", e, san, cn),
                               {"harness": "h_names", "case": c, "observed": impl[i], "expected_by_spec": "m=%d" % want,
                                "model": model[i] if i < len(model) else None})
+    # ---- end-to-end certificates: Impl vs Spec only (parser + validator together; the parser's own safety is C09's subject)
+    elines, edescs = e2e_cases(ck, ck.rng("e2e"), ck.budget(700, 6000))
+    rc3, eimpl, err3 = ck.run_lines(h, elines)
+    ck.cov["evaluations"] += len(elines)
+    for i, (l, dsc) in enumerate(zip(elines, edescs)):
+        if i >= len(eimpl):
+            ck.spec_violation("e2e-harness-died", "the harness died on an end-to-end certificate", {"harness": "h_names", "case": l}); break
+        o, san, cns, e = dsc
+        got = eimpl[i].split()[1] if len(eimpl[i].split()) > 1 else "?"
+        ck.add_distinct("e2e:" + l[:200] + str(i))
+        if got.startswith("m=P"):
+            ck.count("e2e:parse-refused"); continue
+        if not eimpl[i].startswith("v=1"):
+            ck.count("e2e:invalid-expected"); continue
+        if o[1] == 1 and o[3] not in (NT_ANY, NT_HOST, NT_CN):
+            if got != "m=1006":       # documented PS_ARG_FAIL for this option combination
+                ck.spec_violation("illegal-opts-accepted:e2e", "illegal option combination not refused", {"harness": "h_names", "case": l, "observed": eimpl[i]})
+            continue
+        want = e2e_expect(o, san, cns, e)
+        ck.count("e2e:%s:%s" % (got, "free" if want is None else int(want)))
+        if want is None or got not in ("m=0", "m=1"):
+            if got not in ("m=0", "m=1"):
+                ck.spec_violation("e2e-unexpected-rc", "validation of a genuinely signed end-to-end certificate returned " + eimpl[i], {"harness": "h_names", "case": l, "observed": eimpl[i]})
+            continue
+        if (got == "m=1") != want:
+            kinds = sorted(set(g for g, _ in san)); types = sorted(set(t for t, _ in cns))
+            sig = ("accept-without-name" if got == "m=1" else "reject-with-name") + ":e2e:kinds=%s:cn=%s" % (kinds, ",".join(types))
+            ck.spec_violation(sig, "end to end (DER -> psX509ParseCert -> matrixValidateCertsExt): the library %s although the certificate %s the expected name %r (SAN %r, CN %r)" % (
+                                  "accepts" if got == "m=1" else "rejects", "does not carry" if got == "m=1" else "carries", e, san, cns),
+                              {"harness": "h_names", "case": l, "observed": eimpl[i], "expected_by_spec": "m=%d" % want})
+    ck.rules.append("end-to-end stream: certificates built here for every DirectoryString type of the CN x {exact, embedded NUL, trailing NUL, control byte, wildcard} "
+                    "x SAN {absent, unsupported only, supported non-matching, IPv6-sized iPAddress before/after a dNSName}, NUL-carrying SAN strings, two CNs, "
+                    "plus random mixes; signed with the test CA, parsed and validated by the library unmodified")
     for (start, k) in perm_groups:
         outs = set(impl[start:start + k])
         if len(outs) > 1:
